@@ -378,7 +378,7 @@ class RunId(object):
 
         cmdline += " " + self.benchmark.suite.command
 
-        if self.benchmark.extra_args:
+        if self.benchmark.extra_args is not None and self.benchmark.extra_args != "":
             cmdline += " " + str(self.benchmark.extra_args)
 
         cmdline = self._expand_vars(cmdline, True)
